@@ -175,6 +175,22 @@ pub struct Pos {
 }
 
 impl Pos {
+    /// Field-wise equality without array comparisons (those become memcmp loops in the model checker).
+    pub fn same(&self, o: &Pos) -> bool {
+        self.core_same(o) & (self.ep == o.ep)
+    }
+    /// Equality of placement, side to move and castling rights.
+    pub fn core_same(&self, o: &Pos) -> bool {
+        let mut ok = true;
+        let mut i = 0;
+        while i < 6 {
+            ok &= self.pc[i] == o.pc[i];
+            i += 1;
+        }
+        ok &= (self.col[0] == o.col[0]) & (self.col[1] == o.col[1]) & (self.stm == o.stm);
+        ok &= castle_same(&self.castle, &o.castle);
+        ok
+    }
     #[inline(always)]
     pub fn occ(&self) -> u64 {
         self.col[0] | self.col[1]
@@ -183,6 +199,10 @@ impl Pos {
     pub fn king_bb(&self, c: usize) -> u64 {
         self.pc[KING] & self.col[c]
     }
+}
+
+pub fn castle_same(a: &[[u8; 2]; 2], b: &[[u8; 2]; 2]) -> bool {
+    (a[0][0] == b[0][0]) & (a[0][1] == b[0][1]) & (a[1][0] == b[1][0]) & (a[1][1] == b[1][1])
 }
 
 /// Piece kind on the squares of `b` (0..=5), 6 when there is none.
@@ -527,7 +547,7 @@ pub fn ep_capturable(p: &Pos) -> bool {
 pub fn same_position(a: &Pos, b: &Pos) -> bool {
     let ea = if ep_capturable(a) { a.ep } else { NONE };
     let eb = if ep_capturable(b) { b.ep } else { NONE };
-    (a.pc == b.pc) & (a.col == b.col) & (a.stm == b.stm) & (a.castle == b.castle) & (ea == eb)
+    a.core_same(b) & (ea == eb)
 }
 
 /// Position after a null move.
